@@ -111,6 +111,7 @@ def load_registry():
                         "assumes": ann.get("assumes", ""),
                         "desc": ann.get("desc", ""),
                         "finding": ann.get("finding", ""),
+                        "env": dict(x.split("=", 1) for x in ann.get("env", "").split()),
                     }
                     if name in reg:
                         raise SystemExit(f"duplicate harness name {name}")
@@ -271,7 +272,8 @@ def run_harness(h, tier, playback=False, keep=False):
         # used by any verdict here (vacuity is guarded by cover witnesses and twins)
         base = ["cargo", "kani"] + z + ["--no-assertion-reach-checks", "--harness", h["fq"], "--exact",
                                         "--target-dir", tdir]
-        rc, out, dt, to = run(base + ["--only-codegen"], cwd=SLICE, timeout=900, mem_gb=8)
+        henv = dict(ENV, **h.get("env", {})) if h.get("env") else None
+        rc, out, dt, to = run(base + ["--only-codegen"], cwd=SLICE, timeout=900, mem_gb=8, env=henv)
         log = out
         if rc != 0:
             res.update(verdict="BUILD_ERROR", detail=out[-3000:])
@@ -296,7 +298,7 @@ def run_harness(h, tier, playback=False, keep=False):
             cmd += ["--cbmc-args", "--unwindset", uw]
         # a playback run needs --trace, which switches CBMC's formula slicing off: give it room
         rc, out, dt, to = run(cmd, cwd=SLICE, timeout=h["timeout"] * (3 if (tier == "thorough" or playback) else 1),
-                              mem_gb=(max(24, 3 * h["mem"]) if playback else h["mem"]))
+                              mem_gb=(max(24, 3 * h["mem"]) if playback else h["mem"]), env=henv)
         log += "\n=====\n" + " ".join(cmd) + "\n" + out
         res["wall_s"] = round(time.time() - t0, 1)
         pr = parse_kani(out)
